@@ -1,9 +1,113 @@
+import ScenicModel.Model.Determinism
+import ScenicModel.Gen.Determinism
 import Driver.Util
-/-! line protocol for the C15 model (stub: replaced when the property's model is built) -/
-namespace Driver.C15
-open Driver
+/-! line protocol for the C15 model (seeded generation); the bracket flags and the activation
+comparator are the ones regenerated from /repo.
 
-def handle : List String → String
+  sample | <py stream> | <np stream> | <order ids> | <nodes id:src:tag:dep,dep,..>
+      -> "ok|rej <id=val in binding order> py=<consumed> np=<consumed>"
+  gen <numScenes> <maxIterations> | <py> | <np> | <order> | <nodes> | <probs> | <view> | <reqs a:b:u>
+      -> "ok=<0|1> scenes=<v,v,..;its> ... py=<consumed> np=<consumed>"
+     requirement a:b:u is falsified iff (val a + val b) % 5 = 0; u = index of its activation flag or "-"
+     (always active); the checker consumes both generators (3 and 2 elements per evaluated requirement)
+  setorder <size> <ids..>  -> ids in slot order
+-/
+namespace Driver.C15
+open Driver Scenic.Det
+
+def splitBar : List String → List (List String)
+  | [] => [[]]
+  | w :: ws =>
+    match splitBar ws with
+    | [] => [[w]]
+    | g :: gs => if w == "|" then [] :: g :: gs else (w :: g) :: gs
+
+def nats (ws : List String) : Option (List Nat) := ws.mapM (·.toNat?)
+
+def parseSrc : String → Option Src
+  | "py" => some .py
+  | "np" => some .np
+  | "no" => some .none
+  | _ => none
+
+def parseNode (w : String) : Option (Id × Node) :=
+  match w.splitOn ":" with
+  | [i, s, t, ds] => do
+    let i ← i.toNat?
+    let s ← parseSrc s
+    let t ← t.toNat?
+    let ds ← if ds == "" || ds == "-" then some [] else (ds.splitOn ",").mapM (·.toNat?)
+    pure (i, { src := s, tag := t, deps := ds })
+  | _ => none
+
+structure ReqSpec where
+  a : Id
+  b : Id
+  u : Option Nat
+
+def parseReq (w : String) : Option ReqSpec :=
+  match w.splitOn ":" with
+  | [a, b, u] => do
+    let a ← a.toNat?
+    let b ← b.toNat?
+    if u == "-" then pure ⟨a, b, none⟩ else do
+      let u ← u.toNat?
+      pure ⟨a, b, some u⟩
+  | _ => none
+
+def specActive (acts : List Bool) (r : ReqSpec) : Bool :=
+  match r.u with
+  | none => true
+  | some u => acts.getD u false
+
+def burn (n : Nat) (s : List Nat) : List Nat := s.drop n
+
+/-- the requirements of a `gen` line as model requirements: verdict from the sample only, and each
+    evaluation consumes 3 elements of Python's generator and 2 of NumPy's -/
+def reqsOf (specs : List ReqSpec) (acts : List Bool) : List (Req (List Nat)) :=
+  (specs.filter (specActive acts)).map fun r =>
+    { optional := false,
+      run := fun m rs => (decide ((get m r.a + get m r.b) % 5 = 0), { py := burn 3 rs.py, np := burn 2 rs.np }) }
+
+def showMemo (m : Memo) : String :=
+  " ".intercalate (m.reverse.map fun p => s!"{p.1}={p.2}")
+
+def showScene (p : List Val × Nat) : String :=
+  ",".intercalate (p.1.map toString) ++ ";" ++ toString p.2
+
+def handleSample (py np order : List Nat) (tbl : Table) : String :=
+  -- partial samples are not exposed by `sampleAll`; run the model node by node through visitList
+  let r := sampleAll listNext stubSem tbl (tbl.length + 1) order { py := py, np := np }
+  let used := s!"py={py.length - r.2.py.length} np={np.length - r.2.np.length}"
+  match r.1 with
+  | none => s!"rej {used}"
+  | some m => s!"ok {showMemo m} {used}"
+
+def handleGen (n maxIt : Nat) (py np order : List Nat) (tbl : Table) (probs view : List Nat)
+    (specs : List ReqSpec) : String :=
+  let P : Program := { tbl := tbl, fuel := tbl.length + 1, order := order, probs := probs, view := view }
+  let chk : Checker (List Nat) Unit := basicChecker (reqsOf specs)
+  let r := generateMany listNext stubSem P Scenic.Gen.detBracket Scenic.Gen.detActivationLe chk n maxIt ()
+    { py := py, np := np }
+  let scenes := " ".intercalate (r.scenes.map showScene)
+  s!"ok={if r.ok then 1 else 0} scenes={scenes} py={py.length - r.rs.py.length} np={np.length - r.rs.np.length}"
+
+def handle (ws : List String) : String :=
+  match splitBar ws with
+  | [["sample"], py, np, order, nodes] =>
+    match nats py, nats np, nats order, nodes.mapM parseNode with
+    | some py, some np, some order, some tbl => handleSample py np order tbl
+    | _, _, _, _ => "bad-op"
+  | [["gen", n, maxIt], py, np, order, nodes, probs, view, reqs] =>
+    match n.toNat?, maxIt.toNat?, nats py, nats np, nats order, nodes.mapM parseNode, nats probs, nats view,
+        reqs.mapM parseReq with
+    | some n, some maxIt, some py, some np, some order, some tbl, some probs, some view, some specs =>
+      handleGen n maxIt py np order tbl probs view specs
+    | _, _, _, _, _, _, _, _, _ => "bad-op"
+  | [("setorder" :: size :: ids)] =>
+    match size.toNat?, nats ids with
+    | some size, some ids => " ".intercalate ((setOrder size ids).map toString)
+    | _, _ => "bad-op"
   | _ => "bad-op"
 
 end Driver.C15
